@@ -25,3 +25,5 @@ for p in "$@"; do
   echo "$out" | grep -E "tier=quick" | head -1
 done
 git checkout -- .
+# rebuild the shared binary from the restored tree, so that nobody picks up a binary built with the change
+(cd /verif/harness && cargo build --release --offline >/dev/null 2>&1)
